@@ -47,8 +47,13 @@ def run_replay(path):
             return 2
         print('expected stdout=%r rc=%r' % (payload['expected_stdout'], payload['expected_rc']))
         print('observed stdout=%r rc=%r' % (res['stdout'], res['rc']))
-        differs = (payload['expected_stdout'] is not None and res['stdout'] != payload['expected_stdout']) or \
-                  (payload['expected_rc'] is not None and res['rc'] != payload['expected_rc'])
+        if payload['expected_stdout'] is None and payload['expected_rc'] is None:
+            # no closed-form expectation was recorded: the violation is the recorded observation itself
+            differs = res['stdout'] == payload['observed_stdout'] and res['rc'] == payload['observed_rc']
+            print('violated goals recorded: %s' % payload.get('violated_goals'))
+        else:
+            differs = (payload['expected_stdout'] is not None and res['stdout'] != payload['expected_stdout']) or \
+                      (payload['expected_rc'] is not None and res['rc'] != payload['expected_rc'])
         print('REPRODUCED' if differs else 'NOT REPRODUCED')
         return 1 if differs else 0
     if kind == 'harness-call':
